@@ -31,7 +31,9 @@ if not ok:
     if not ok2:
         ck.violation("coq-model-broken", "Coq model of C14 does not compile", {"log": out2[-3000:]}, no_input=True)
         ck.finish({"evaluations": 1, "distinct_nontrivial": 0, "rule": "n/a", "samples": ["model did not compile"]})
+ck.log("theorems re-made")
 ok, out = ck.coq_props()
+ck.log("Props compiled")
 if not ok:
     broken.append(("Props/C14.v", out[-3000:]))
 
@@ -40,6 +42,7 @@ exe, out = ck.go_build("./cmd/hc14")
 if exe is None:
     ck.violation("harness-build", "harness does not build against the repository", {"log": out[-3000:]}, no_input=True)
     ck.finish({"evaluations": 1, "distinct_nontrivial": 0, "rule": "n/a", "samples": ["harness build failed"]})
+ck.log("harness built")
 work = ck.mkscratch()
 res = os.path.join(work, "out.json")
 env = dict(GOENV); env["VERIF_REPO"] = REPO
@@ -110,11 +113,13 @@ for c in good:
     shards[i].append(c)
     load[i] += c["Stats"]["Blocks"] ** 2 + 20
 files = {}
+shard_sizes = {}
 for i, sh_cases in enumerate(shards):
     if not sh_cases:
         continue
+    shard_sizes["s%02d" % i] = len(sh_cases)
     files["s%02d" % i] = HEADER + "Definition cases : list dom_case := [\n" + ";\n".join(case_v(c) for c in sh_cases) + \
-        "].\nDefinition V := Eval vm_compute in violations cases.\nDefinition A := Eval vm_compute in accepted cases.\nPrint V.\nPrint A.\n"
+        "].\nDefinition V := Eval vm_compute in violations cases.\nPrint V.\n"
 results = ck.coq_cases_parallel(files, timeout=3000)
 ck.log("coq evaluation done")
 
@@ -133,11 +138,12 @@ def source_of(c):
 accepted = 0
 eval_failed = []
 for name, (rc, out) in sorted(results.items()):
-    V, A = ck.printed_value(out, "V"), ck.printed_value(out, "A")
-    if rc != 0 or V is None or A is None:
+    V = ck.printed_value(out, "V")
+    if rc != 0 or V is None:
         eval_failed.append((name, out[-2000:]))
         continue
-    accepted += int(re.match(r"\d+", A).group(0))
+    nrej = len(re.findall(r"\((\d+),\s*\[", V)) if V != "[]" else 0
+    accepted += shard_sizes[name] - nrej
     if V != "[]":
         for m in re.finditer(r"\((\d+),\s*\[([^\]]*)\]\)", V):
             c = by_id[int(m.group(1))]
